@@ -41,6 +41,7 @@ void sym_inputs(void)
 #ifdef REPLAY
 #include "replay_inputs.inc"
 #else
+  SYM_FEED();
   SYM(seen_in); SYM_ARR(mf); SYM_ARR(rbytes); SYM(rlen); SYM_ARR(body); SYM(nb); SYM(h_in);
   SYM(open_fails); SYM(qstatus); SYM(wfail_at);
 #endif
